@@ -167,6 +167,28 @@ Definition ts_consts : R val :=
   Val (VTup [enc_dtz (mk_dtz epoch 0); VInt t0; enc_ndt epoch; enc_dtz (mk_dtz NDT_MIN 0); enc_dtz (mk_dtz NDT_MAX 0);
              enc_ndt NDT_MIN; enc_ndt NDT_MAX; VInt tmin; VInt tmax]).
 
+(** * The [Default] impls (op ts.defaults) *)
+(* impl Default for NaiveDate (src/naive/date/mod.rs):  NaiveDate::from_ymd_opt(1970, 1, 1).unwrap() *)
+Definition date_default : R Z := unwrap_r (Date.from_ymd_opt 1970 1 1).
+(* impl Default for NaiveTime (src/naive/time/mod.rs):  NaiveTime::from_hms_opt(0, 0, 0).unwrap() *)
+Definition time_default : R Time.ntime := unwrap_r (Time.from_hms_opt 0 0 0).
+(* DateTime::<Utc>::UNIX_EPOCH = expect(NaiveDate::from_ymd_opt(1970, 1, 1), "").and_time(NaiveTime::MIN).and_utc() *)
+Definition dt_unix_epoch : R dtz :=
+  let* d := unwrap_r (Date.from_ymd_opt 1970 1 1) in Val (mk_dtz (mk_ndt d T_MIN) 0).
+(* impl Default for NaiveDateTime (src/naive/datetime/mod.rs):  DateTime::UNIX_EPOCH.naive_local() *)
+Definition ndt_default : R ndt := let* e := dt_unix_epoch in naive_local e.
+(* impl Default for DateTime<Utc>:  Utc.from_utc_datetime(&NaiveDateTime::default()) *)
+Definition dtz_default_utc : R dtz := let* n := ndt_default in Val (from_utc_datetime 0 n).
+(* impl Default for DateTime<FixedOffset>:  FixedOffset::west_opt(0).unwrap().from_utc_datetime(&NaiveDateTime::default()) *)
+Definition dtz_default_fixed : R dtz :=
+  let* o := unwrap_r (west_opt 0) in let* n := ndt_default in Val (from_utc_datetime o n).
+(* the observation: the five default values and the timestamps of the two zoned ones *)
+Definition ts_defaults : R val :=
+  let* d := date_default in let* t := time_default in let* n := ndt_default in
+  let* u := dtz_default_utc in let* f := dtz_default_fixed in
+  let* tu := dt_timestamp (naive_utc u) in let* tf := dt_timestamp (naive_utc f) in
+  Val (VTup [enc_date d; Time.enc_time t; enc_ndt n; enc_dtz u; enc_dtz f; VInt tu; VInt tf]).
+
 Definition run (op : bytes) (args : list val) : val :=
   let i64_1 (f : Z -> val) := match args with [a] => match arg_i64 a with Some z => f z | None => VBad end | _ => VBad end in
   let i64_u32 (f : Z -> Z -> val) := match args with
@@ -220,4 +242,6 @@ Definition run (op : bytes) (args : list val) : val :=
     | _ => VBad end
   else if op_is op "ts.consts" then
     match args with [] => val_of_R (fun v => v) ts_consts | _ => VBad end
+  else if op_is op "ts.defaults" then
+    match args with [] => val_of_R (fun v => v) ts_defaults | _ => VBad end
   else VErr B"NOOP".
